@@ -12,6 +12,11 @@ KINDS = ("delimited", "delimited-de", "fixed", "excel", "ods")
 _OPS = ("<", "<=", "==", "!=", ">=", ">")
 
 
+# descriptions of checks are free text (they show up in messages): also with characters that mean something to
+# %-formatting, str.format, regular expressions and the CID's own syntax
+_DESCRIPTIONS = ["%s", "%s", "%s", "100%% sure: %s", "%s (%%s, %%d)", "%s {0} {}", "%s \\d+ [", "%s, \"quoted\"", "\xe4 %s"]
+
+
 def _pools(draw, field, fmt, n=5):
     cells = gen_fields.cells_for(draw, field, fmt, n)
     fixed = fmt["format"] == "fixed"
@@ -42,6 +47,8 @@ def cid_specs(draw, kinds=KINDS, max_fields=5, types=gen_fields.TYPES, max_heade
         fmt["line_delimiter"] = draw(st.sampled_from(["LF", "LF", "Any", "CRLF", "CR"]))
     if kind in ("excel", "ods"):
         fmt["sheet"] = draw(st.sampled_from([None, None, 2]))
+    # the order of the CID's rows (see cidlib.cid_rows): same meaning, another arrangement
+    fmt["layout"] = draw(st.sampled_from([None, None, None, "late-properties", "early-checks", "both"]))
     n_fields = draw(st.integers(1, max_fields))
     fields = []
     for index in range(n_fields):
@@ -71,19 +78,24 @@ def cid_specs(draw, kinds=KINDS, max_fields=5, types=gen_fields.TYPES, max_heade
             k = draw(st.integers(1, min(3, len(names))))
             keys = list(draw(st.permutations(names)))[:k]
             sep = draw(st.sampled_from([", ", ",", " , "]))
-            check_specs.append({"desc": "unique %s" % "_".join(keys), "type": "IsUnique", "rule": sep.join(keys),
-                                "keys": keys})
+            check_specs.append({"desc": draw(st.sampled_from(_DESCRIPTIONS)) % ("unique " + "_".join(keys)),
+                                "type": "IsUnique", "rule": sep.join(keys), "keys": keys})
         for number in range(draw(st.integers(0, 2))):
             name = draw(st.sampled_from(names))
             op = draw(st.sampled_from(_OPS))
             n = draw(st.integers(0, 4))
             blank = draw(st.sampled_from([" ", "", "  "]))
             threshold = spell_count(n, draw(st.sampled_from([0, 0, 0, 1, 2, 3, 4, 5])))
-            check_specs.append({"desc": "count %d of %s" % (number, name), "type": "DistinctCount",
+            check_specs.append({"desc": draw(st.sampled_from(_DESCRIPTIONS)) % ("count %d of %s" % (number, name)),
+                                "type": "DistinctCount",
                                 "rule": "%s%s%s%s%s" % (name, blank, op, blank, threshold), "field": name, "op": op,
                                 "n": n})
         if draw(st.booleans()):
             check_specs.reverse()
+    if fmt.get("layout") in ("early-checks", "both"):
+        # each check then stands behind the last field it names: list them in the order the CID declares them
+        names = [f["name"] for f in fields]
+        check_specs.sort(key=lambda c: gen_fields.last_named_field(names, c["rule"]))
     return {"fmt": fmt, "fields": fields, "checks": check_specs}
 
 
